@@ -208,6 +208,12 @@ def gen_varspec(rng, cand, a, scaled, bound_mode):
     lo, hi = raw - d * rng.uniform(0.3, 1.0), raw + d * rng.uniform(0.3, 1.0)
     if kind == 'index':
         lo = max(lo, 1.02)
+    elif kind != 'radius' and raw != 0 and rng.random() < 0.15:
+        # a bound of exactly zero (the most natural bound there is: thickness >= 0, conic <= 0, ...)
+        if raw > 0:
+            lo = 0.0
+        else:
+            hi = 0.0
     vs = dict(kind=kind, kw=kw, scaled=bool(scaled), raw0=float(raw),
               min_val=(float(lo) if bound_mode in ('both', 'min') else None),
               max_val=(float(hi) if bound_mode in ('both', 'max') else None))
@@ -424,7 +430,7 @@ def gen_opt_case(rng, fe=None, nanfault=False, tier='quick'):
 
 def fixed_cases(tier):
     rng = np.random.default_rng(140014)
-    n_fe, n_mp, n_nan = (1, 2, 4) if tier == 'quick' else (3, 6, 16)
+    n_fe, n_mp, n_nan = (2, 2, 4) if tier == 'quick' else (3, 6, 16)   # two fixed runs per front end: one may end without a verdict (scipy rejects the start, ...)
     out = []
     for _ in range(n_mp):
         out.append(gen_opt_case(rng, 'de-mp', tier=tier))
